@@ -7,6 +7,7 @@ import (
 	"go/ast"
 	"go/token"
 	"go/types"
+	"strings"
 
 	"golang.org/x/tools/go/cfg"
 )
@@ -44,6 +45,13 @@ func c08a(c *Ctx) {
 		return
 	}
 	info := f.Info()
+	// one read of the lock store: everything the Log starts from (tree, time, CAS handle) must be
+	// one snapshot; a second Fetch lets them come from different moments
+	if fs := f.CallsW(specLockFet); len(fs) > 1 {
+		c.Bad(f.Name+" single lock fetch", fs[1].Pos(), "the lock checkpoint is fetched "+fmt.Sprint(len(fs))+" times while loading ("+strings.Join(sitePositions(fs), ", ")+"): the tree the Log extends and the value its first CAS compares against can come from different reads, so a stale tree can win the CAS")
+	} else if len(fs) == 1 {
+		c.OK(f.Name+" single lock fetch", "one LockBackend.Fetch feeds the tree, the time and the CAS handle", []string{fs[0].Pos()})
+	}
 	lockCk := lockCheckpointObj(f)
 	if lockCk == nil {
 		c.Unk(f.Name, "lock checkpoint variable not identified")
